@@ -27,7 +27,22 @@ func genLayoutFile(rt *rapid.T, k int) ([]*tw.Stmt, map[string]string) {
 	for i := 0; i < k; i++ {
 		name := reserveNames[i]
 		res := &tw.Stmt{Kind: tw.SReserve, Name: name}
-		switch rapid.IntRange(0, 5).Draw(rt, "reservePlace") {
+		switch rapid.IntRange(0, 7).Draw(rt, "reservePlace") {
+		case 6:
+			// in the @else of a loop (rendered when the array is empty) or of a @for
+			where[name] = "in-loop-else"
+			arr := rapid.SampledFrom([]*tw.Expr{tw.Arr(), tw.Var("ea"), tw.Arr(intLit(1))}).Draw(rt, "elseArr")
+			out = append(out, &tw.Stmt{Kind: tw.SEach, Name: "le", E: arr, Body: []*tw.Stmt{tw.Text("<el>")}, HasElse: true, Else: []*tw.Stmt{tw.Text("<none>"), res, tw.Text("</none>")}})
+		case 7:
+			// in an @elseif branch, or in the @else of a @for nested in the @else of that @if (one reserve, one place)
+			where[name] = "in-elseif"
+			elseifBody, forElse := []*tw.Stmt{tw.Text("<ei>"), res}, []*tw.Stmt{tw.Text("<fe>")}
+			if rapid.Bool().Draw(rt, "inForElse") {
+				where[name] = "in-for-else"
+				elseifBody, forElse = []*tw.Stmt{tw.Text("<ei>")}, []*tw.Stmt{tw.Text("<fe>"), res}
+			}
+			out = append(out, &tw.Stmt{Kind: tw.SIf, Branches: []tw.Branch{{Cond: tw.Bool(false), Body: []*tw.Stmt{tw.Text("no")}}, {Cond: tw.Var("b1"), Body: elseifBody}}, HasElse: true, Else: []*tw.Stmt{
+				{Kind: tw.SFor, Name: "fi", Init: intLit(0), Cond: tw.Bin("<", tw.Var("fi"), intLit(0)), Post: tw.Un(tw.EInc, tw.Var("fi")), Body: []*tw.Stmt{tw.Text("never")}, HasElse: true, Else: forElse}}})
 		case 0, 1:
 			where[name] = "top"
 			out = append(out, tw.Text(fmt.Sprintf("<s%d>", i)), res, tw.Text(fmt.Sprintf("</s%d>\n", i)))
@@ -120,7 +135,7 @@ func genPage(rt *rapid.T, env *dataEnv, layoutRef string, k int, where map[strin
 
 func TestC06_Layouts(t *testing.T) {
 	c := harness.New(t, "C06", "layouts",
-		"template directories with a layout (1..4 distinct reserves at top level, inside @if(data flag), inside @each(data array) with loop.index, in attribute-like text, nested @if/@each/@if) and a page using it by '~name', 'layouts/name' or another spelling of that path (/layouts/name, ./layouts/name, layouts//name, pages/../layouts/name; names with dots, dashes and digits included), the @use standing before, between or after the inserts, inserting a random subset of the reserves in random order, block form (markers, prints of data, @if/@each bodies, steps of a counter the layout declares and prints at its end) or expression form, with junk text, comments and blank lines between inserts; data maps with every kind; directory 't' or 'x/t', extensions .tw / .tw.html / .html. Expected output: the reference composition model (layout rendered with each reserve replaced by the reference rendering of its insert, page text outside inserts discarded). Non-trivial: >= 2 reserves, one nested in @if/@each, and a proper non-empty subset inserted. Distinct by hash of files + data.")
+		"template directories with a layout (1..4 distinct reserves at top level, inside @if(data flag), inside @each(data array) with loop.index, in attribute-like text, nested @if/@each/@if, in the @else of an @each / @for, in an @elseif branch) and a page using it by '~name', 'layouts/name' or another spelling of that path (/layouts/name, ./layouts/name, layouts//name, pages/../layouts/name; names with dots, dashes and digits included), the @use standing before, between or after the inserts, inserting a random subset of the reserves in random order, block form (markers, prints of data, @if/@each bodies, steps of a counter the layout declares and prints at its end) or expression form, with junk text, comments and blank lines between inserts; data maps with every kind; directory 't' or 'x/t', extensions .tw / .tw.html / .html. Expected output: the reference composition model (layout rendered with each reserve replaced by the reference rendering of its insert, page text outside inserts discarded). Non-trivial: >= 2 reserves, one nested in @if/@each, and a proper non-empty subset inserted. Distinct by hash of files + data.")
 	defer c.Finish()
 	in := interp()
 	runRapid(t, c, 4000, 45000, func(rt *rapid.T) {
